@@ -407,18 +407,40 @@ func trieGapsAtDepth[K kad.Key[K], D any](t *trie.Trie[bitstr.Key, D], depth int
 			continue
 		}
 		bstr := bitstr.Key(byte('0' + i))
+		// Still above the target: an empty branch, or a lone key hanging above
+		// the target, must be clipped to the target.
+		aboveTarget := depth+1 < target.BitLen()
 		if b := t.Branch(i); b == nil {
-			gaps = append(gaps, bstr)
+			if aboveTarget {
+				gaps = append(gaps, target[depth:])
+			} else {
+				gaps = append(gaps, bstr)
+			}
 		} else if b.IsLeaf() {
 			if b.HasKey() {
 				k := *b.Key()
-				if len(k) > depth+1 {
+				if aboveTarget {
+					switch {
+					case IsBitstrPrefix(k, target):
+						// target is covered by k
+					case IsBitstrPrefix(target, k):
+						siblingPrefixes := SiblingPrefixes(k)[len(target):]
+						sortBitstrKeysByOrder(siblingPrefixes, order)
+						for _, siblingPrefix := range siblingPrefixes {
+							gaps = append(gaps, siblingPrefix[depth:])
+						}
+					default:
+						gaps = append(gaps, target[depth:])
+					}
+				} else if len(k) > depth+1 {
 					siblingPrefixes := SiblingPrefixes(k)[depth+1:]
 					sortBitstrKeysByOrder(siblingPrefixes, order)
 					for _, siblingPrefix := range siblingPrefixes {
 						gaps = append(gaps, siblingPrefix[depth:])
 					}
 				}
+			} else if aboveTarget {
+				gaps = append(gaps, target[depth:])
 			} else {
 				gaps = append(gaps, bstr)
 			}
